@@ -50,6 +50,20 @@ def utf8_strings(max_size=12):
     return st.lists(codepoints(), max_size=max_size).map(lambda cps: "".join(chr(c) for c in cps).encode("utf-8"))
 
 
+LONG_PATTERNS = [b"a", b"\xc3\xa9", b"\"\\", b"\n", b"\xf0\x9f\x98\x80", b"ab\t", b"\x01", b"/", b"\xe2\x80\xa8x", b"\x7f\""]
+LONG_LENGTHS = [31, 32, 33, 63, 64, 65, 255, 256, 257, 1000, 4095, 4096, 4097, 20000, 70000]
+
+
+def long_strings():
+    """valid UTF-8 strings far longer than any fixed scratch buffer: one pattern (plain, escape-needing, 2/3/4-byte) repeated"""
+    return st.tuples(st.sampled_from(LONG_PATTERNS), st.sampled_from(LONG_LENGTHS)).map(lambda t: t[0] * max(1, t[1] // len(t[0])))
+
+
+def with_long(strings, share=40):
+    """strings, one in `share` of which is a long one"""
+    return weighted((share - 1, strings), (1, long_strings()))
+
+
 def ascii_keys(max_size=6):
     return st.lists(st.sampled_from(list(b"abABkK01_-/~ ")), max_size=max_size).map(bytes)
 
